@@ -20,6 +20,7 @@ type PropFunc struct {
 	Key    string   `json:"key"`
 	Kinds  []string `json:"kinds,omitempty"`  // obligation kinds to count (default all)
 	Labels []string `json:"labels,omitempty"` // substrings an obligation name must contain (any)
+	Exclude []string `json:"exclude,omitempty"` // substrings of obligation names NOT claimed here (reported as assumed)
 	Note   string   `json:"note,omitempty"`
 }
 
@@ -137,6 +138,16 @@ func cmdCheck(args []string) {
 	lemmaDefined := map[string]bool{}
 	// every spec prelude is visible to every property (contracts of callees from
 	// other properties may use their vocabulary); common.smt2 first
+	// lemmas whose proof blocks are part of this run
+	lemmaInRun := map[string]bool{}
+	autoUsed := map[string]bool{}
+	for _, lf := range ps.Lemmas {
+		if b, err := os.ReadFile(filepath.Join(verifDir, lf)); err == nil {
+			for _, lp := range ParseLemmaFile(string(b)) {
+				lemmaInRun[lp.Name] = true
+			}
+		}
+	}
 	allPre := []string{"spec/common.smt2"}
 	if ms, _ := filepath.Glob(filepath.Join(verifDir, "spec", "*.smt2")); ms != nil {
 		sort.Strings(ms)
@@ -161,12 +172,23 @@ func cmdCheck(args []string) {
 		}
 		vcPre += pl.VCText + "\n"
 		recPre += pl.RecText + "\n"
+		// an automatically instantiated lemma is an axiom of the VCs only if this
+		// very run proves it (its proof blocks are in one of the property's lemma files)
+		for _, name := range pl.Autos {
+			if lemmaInRun[name] {
+				if !autoUsed[name] {
+					vcPre += pl.AutoAx[name]
+				}
+				autoUsed[name] = true
+			}
+		}
 		for l := range pl.Lemmas {
 			lemmaDefined[l] = true
 		}
 	}
 
 	var fails []*failure
+	var notClaimed []string
 	var gens []*Gen
 	var funcsEv []map[string]any
 	selected := map[*Obligation]bool{}
@@ -213,13 +235,27 @@ func cmdCheck(args []string) {
 		}
 		gens = append(gens, g)
 		n := 0
+		skipped := map[string]int{}
 		for _, o := range g.obls {
 			if oblSelected(o, pf) {
 				selected[o] = true
 				n++
+			} else {
+				skipped[o.Kind]++
 			}
 		}
-		funcsEv = append(funcsEv, funcEvidence(e, fn, con, g, n))
+		fe := funcEvidence(e, fn, con, g, n)
+		if len(skipped) > 0 {
+			// obligations generated for this function but not claimed by this
+			// property: the symbolic execution continues past them as if they held
+			fe["not_claimed_here_assumed"] = skipped
+			var ks []string
+			for _, k := range sortedKeys(skipped) {
+				ks = append(ks, fmt.Sprintf("%d %s", skipped[k], k))
+			}
+			notClaimed = append(notClaimed, fmt.Sprintf("%s: %s obligations are generated but not claimed by this property (assumed to hold past their program point; see the properties that list this function with those kinds)", g.fnName, strings.Join(ks, ", ")))
+		}
+		funcsEv = append(funcsEv, fe)
 	}
 
 	// interface contracts that restate a concrete method's contract: every labelled
@@ -311,6 +347,11 @@ func cmdCheck(args []string) {
 		lemmaProved[name] = ok
 	}
 
+	for _, name := range sortedKeys(autoUsed) {
+		if !lemmaProved[name] {
+			fails = append(fails, &failure{Name: "lemmas#auto:" + name, Reason: "automatically instantiated lemma " + name + " has no successful proof in this run"})
+		}
+	}
 	known := loadKnownFindings(filepath.Join(verifDir, "known_findings.json"))
 	total, discharged := len(ownsChecked)+len(ownsBad), len(ownsChecked)
 	var perObl []map[string]any
@@ -413,6 +454,7 @@ func cmdCheck(args []string) {
 	var assumptions []string
 	assumptions = append(assumptions, ps.Assumptions...)
 	assumptions = append(assumptions, links...)
+	assumptions = append(assumptions, notClaimed...)
 	absSet := map[string]bool{}
 	provedElsewhere := propsVerifying(verifDir)
 	for _, g := range gens {
@@ -517,6 +559,11 @@ func oblSelected(o *Obligation, pf PropFunc) bool {
 			}
 		}
 		if !ok {
+			return false
+		}
+	}
+	for _, x := range pf.Exclude {
+		if strings.Contains(o.Name, x) {
 			return false
 		}
 	}
